@@ -47,6 +47,28 @@ type c17Any struct {
 	V interface{} `json:"v" xml:"v"`
 }
 
+// values with encoding methods of their own
+type c17Marshaler struct{ S string }
+
+func (m c17Marshaler) MarshalJSON() ([]byte, error) {
+	return []byte(`{ "custom" : "` + m.S + `" }`), nil
+}
+
+type c17TextKey struct{ K string }
+
+func (k c17TextKey) MarshalText() ([]byte, error) { return []byte("text:" + k.K), nil }
+func (k *c17TextKey) UnmarshalText(b []byte) error {
+	k.K = strings.TrimPrefix(string(b), "text:")
+	return nil
+}
+
+func (m *c17Marshaler) UnmarshalJSON(b []byte) error {
+	var x struct{ Custom string }
+	err := json.Unmarshal(b, &x)
+	m.S = x.Custom
+	return err
+}
+
 type c17Opts struct {
 	Charset    string `json:"charset"`
 	JSONIndent string `json:"json_indent"`
@@ -263,7 +285,11 @@ func c17JSONTrees() []interface{} {
 		}
 	}
 	out = append(out, c17Flat{A: "x", B: "<y>"}, c17Nested{In: c17Flat{A: "1"}, C: "2"}, c17Slice{Items: []string{"p", "q"}}, []int{1, 2, 3}, map[string]int{"a": 1}, 42, int64(-7), "top-level string", []byte("bytes become base64"),
-		c17Any{V: "a"}, c17Any{V: 1.5}, c17Any{V: nil}, c17Any{V: []interface{}{"<", true}})
+		c17Any{V: "a"}, c17Any{V: 1.5}, c17Any{V: nil}, c17Any{V: []interface{}{"<", true}},
+		// values that bring their own JSON text (the encoder compacts, escapes and indents it like any other)
+		json.RawMessage(`{"a": 1,  "b" : "<x>&"}`), json.RawMessage("[1,\n 2]"), json.RawMessage(`"plain"`), json.RawMessage(`{"u":"\u2028"}`),
+		[]json.RawMessage{json.RawMessage(`{ "k" : [ true ] }`)}, []json.RawMessage{json.RawMessage(`{"a": "<"}`), json.RawMessage(`null`)},
+		c17Marshaler{"<m>"}, &c17Marshaler{"p"}, c17TextKey{"k"}, map[c17TextKey]int{{"<t>"}: 1})
 	return out
 }
 
